@@ -312,7 +312,8 @@ zone of `start.Local()`). -/
 theorem cron_live_equals_historical_same_zone (tod : List Int) (hne : tod ≠ []) (z stop now offset : Int) (n : Nat) (s0 : Int) :
     histTicks (cronZoneNext tod z) stop now offset n s0 =
       (cronLiveIn tod z n s0).takeWhile (fun c => decide (c ≤ stop) && decide (c - offset ≤ now)) :=
-  histTicks_eq_live_takeWhile _ (cronZoneNext_isSome tod hne z) stop now offset n s0
+  have _ := hne
+  histTicks_eq_live_takeWhile _ stop now offset n s0
 
 /-- … so the live ticks of a span are exactly the schedule's instants in it, each once, in order (`HistSpec` of the LIVE list). -/
 theorem live_cron_ticks_in_span_exact (tod : List Int) (hok : TodOk tod) (hne : tod ≠ []) (z start stop now offset period : Int) :
@@ -333,12 +334,27 @@ theorem cron_live_in_utc_differs_from_history :
       (cronLiveIn tod zLive 5 0).takeWhile (fun c => decide (c ≤ stop)) = [9 * 3600000000000, 33 * 3600000000000] :=
   ⟨[9 * 3600000000000], 5 * 3600000000000, 0, 2 * 86400000000000, ⟨by decide, by decide⟩, by decide, by decide⟩
 
-/-- Counterexample (a defect of the unchanged tree the `cronlive` op shows with shape `end`; not repaired): a cron
-schedule that has ENDED (a year field in the past). `Queries` stops at the zero time `Next` answers; `cronTicker.Start`
-does not test it: `next.Sub(now)` is negative, `time.After` fires at once, and the zero time is sent as a tick — in a
-loop without pause. Those ticks are not on the schedule and the historical list of the span is empty. -/
-theorem ended_cron_live_sends_zero_time :
-    cronLiveTicks (cronListNext [10]) 3 10 = [zeroTime, zeroTime, zeroTime] ∧
+/-- **The live cron ticker and the historical list coincide for EVERY cron schedule, also one that ends** (a year
+field in the past, a list of firings that runs out): what `cronTicker.Start` sends up to the end of the span is the
+list of ticks `Queries` walks — both loops stop at the zero time `Next` answers for an ended schedule. -/
+theorem cron_live_equals_historical_any_schedule (next : Int → Option Int) (stop now offset : Int) (n : Nat) (s0 : Int) :
+    histTicks next stop now offset n s0 =
+      (cronLiveTicks next n s0).takeWhile (fun c => decide (c ≤ stop) && decide (c - offset ≤ now)) :=
+  histTicks_eq_live_takeWhile next stop now offset n s0
+
+/-- An ended schedule is silent: no live tick, no historical query. -/
+theorem ended_cron_is_silent (next : Int → Option Int) (now : Int) (h : next now = none) (n : Nat) (stop nw offset : Int) :
+    cronLiveTicks next n now = [] ∧ histTicks next stop nw offset n now = [] := by
+  cases n <;> simp [cronLiveTicks, histTicks, h]
+
+/-- Counterexample (the tree before the `fix:` recorded in findings/C16.txt, found by the `cronlive` op with shape `end`:
+165081 live queries for a range in year 1 within one second): a cron schedule that has ENDED. `Queries` stops at the
+zero time `Next` answers; the old `cronTicker.Start` did not test it: `next.Sub(now)` is negative, `time.After` fires at
+once, and the zero time is sent as a tick — in a loop without pause. Those ticks are not on the schedule and the
+historical list of the span is empty. -/
+theorem old_ended_cron_live_sends_zero_time :
+    cronLiveTicksOld (cronListNext [10]) 3 10 = [zeroTime, zeroTime, zeroTime] ∧
+    cronLiveTicks (cronListNext [10]) 3 10 = [] ∧
     histTicks (cronListNext [10]) 100 1000 0 5 10 = [] ∧
     LiveTick (.cronList [10]) 10 zeroTime = false := by decide
 
